@@ -239,6 +239,22 @@ func (c *Contract) Finish() {
 	c.mu.Lock()
 	ops := c.ops
 	c.mu.Unlock()
+	// "its series list never changes": ask every operator once more, after the whole stream
+	// has been consumed (a consumer may have edited the label arrays it was handed)
+	for _, w := range ops {
+		w.mu.Lock()
+		have := w.haveSnap && !w.errored
+		w.mu.Unlock()
+		if !have {
+			continue
+		}
+		func() {
+			defer func() { _ = recover() }()
+			if s, err := w.inner.Series(context.Background()); err == nil {
+				w.checkSeries(s)
+			}
+		}()
+	}
 	for _, w := range ops {
 		w.mu.Lock()
 		if w.haveSnap && w.sawSample && len(w.snap) > 0 && w.maxID >= uint64(len(w.snap)) {
